@@ -118,16 +118,17 @@ theorem rl_exit_u {c : Cfg} {t0 : Nat} {s : St} {g : Gen} (fuel : Nat) (ho : ord
     have h1 := h.inv.S.src_iter x
     have h2 := (h.inv.S.dead hna hpost.2).2
     omega
-  have hgt : GoodT { s with log := lg, jobs := [], jobsSet := [], running := false, calling := false }
-      { g with phase := .tail, remaining := s.jobs } := by
-    refine ⟨idle_of_end h.inv.T h.cid (fun _ => rfl) rfl rfl (Or.inl rfl) rfl rfl rfl, ⟨rfl, rfl, rfl, rfl⟩,
-      hexc, hdone, hU.jobs_nodup, h.hung, hnoit, ?_⟩
+  have hstale : AllStale { s with log := lg, jobs := [], jobsSet := [], running := false, calling := false } := by
     intro i hi hcid
     have hcid' : (getTrk s i).callId = s.callId := hcid
     obtain ⟨i0, i1⟩ := own_of_callId h.inv.T hcid'
     have hpend : (getTrk s i).status = .pending :=
       (h.inv.T.parked_pending hna i i0 i1).mpr (Or.inl hi)
     rw [hnp i i0 i1] at hpend; cases hpend
+  have hgt : GoodT { s with log := lg, jobs := [], jobsSet := [], running := false, calling := false }
+      { g with phase := .tail, remaining := s.jobs } :=
+    ⟨idle_of_end h.inv.T h.cid (fun _ => rfl) rfl rfl (List.Sublist.refl _) (Or.inr hstale) rfl rfl rfl,
+      ⟨rfl, rfl, rfl, rfl⟩, hexc, hdone, hU.jobs_nodup, h.hung, hnoit, hstale⟩
   have hperm : s.jobsSet.Perm s.jobs := by
     apply perm_of_nodup_of_mem_iff hU.set_nodup hU.jobs_nodup
     intro x
